@@ -359,4 +359,5 @@ func checkC14(c *Ctx) {
 	}
 	checkC14UniqueAccept(c)
 	checkRound4Misc(c, "C14")
+	checkRound5Small(c, "C14")
 }
